@@ -4,7 +4,7 @@ from vlib.core import write_cfg, validate_trace, count_lines, CheckerError
 LEVEL = "model_checking"
 META = {
     "technique": "Cache.tla with 2-3 processes model-checked by TLC; TLC-generated interleavings (a process parked in OnDelete while others run) forced on the real cache; free-running -race hammering; stamped concurrent logs validated for per-key linearizability by TLC (CacheLin.tla, silent Linearize/Evict steps)",
-    "level_text": "TLC checks the multi-process design (every lock region one action, OnDelete window explicit): the C09 bounds hold in every state, hence in every Stats snapshot, for 2 (quick) / 3 (thorough) processes. The only window in which the lock is dropped mid-call is forced deterministically: every 2-process behaviour of the spec up to the event bound is replayed with real goroutines parked inside OnDelete and compared event by event. Data-race freedom is decided by the Go race detector on un-instrumented hammering of the real cache (5 configuration families); per-key register linearizability and the Stats bounds are decided by TLC on stamped invoke/return logs of free-running executions (evictions reported through OnDelete are linearized as silent steps).",
+    "level_text": "TLC checks the multi-process design (every lock region one action, OnDelete window explicit): the C09 bounds hold in every state, hence in every Stats snapshot, for 2 (quick) / 3 (thorough) processes. The only window in which the lock is dropped mid-call is forced deterministically: every 2-process behaviour of the spec up to the event bound is replayed with real goroutines parked inside OnDelete and compared event by event, including behaviours in which the OnDelete call-back panics (the Set unwinds with the lock free while the other process goes on). Data-race freedom is decided by the Go race detector on un-instrumented hammering of the real cache (5 configuration families; every third round each goroutine owns an independent cache, so a report there is package-level state shared between instances); per-key register linearizability and the Stats bounds are decided by TLC on stamped invoke/return logs of free-running executions (evictions reported through OnDelete are linearized as silent steps).",
     "level_note": "Race freedom and linearizability are claimed for the executions observed (seeded stress), not for all schedules; the deterministic schedule replay is exhaustive only for the OnDelete window up to the event bound. Clear is linearized per key (necessary condition). Hit/Miss under concurrency are not part of the statement.",
 }
 
